@@ -5,7 +5,8 @@
   The output is a list of `Piece`s: tokens and the white space Go writes between them, so that both the
   exact bytes (`pieceText`) and the token list the parser will see (`pieceToks`) are available.
   Go's precedence table is `goPrec`: a `NodeValue` is ALWAYS `primaryPrecedence`, also a negative long
-  that is written `-5` — the root of the `-5.foo` defect (C08_marshal_negative_receiver_counterexample).
+  that is written `-5`; the RECEIVER of a member access / method call is written by `marshalReceiverNode`
+  (`goWrapRecv`), which parenthesises a negative long: `(-5).foo` (repaired defect `negative-literal-receiver`).
 
   Not modelled (the driver answers `skip`): `NodeValue`s holding sets, records or extension values
   (member order of a printed set is hash-slot order, record keys go through `strconv.Quote`; both are
@@ -45,6 +46,14 @@ def goPrec : Expr → Nat
 /-- `marshalChildNode(thisNodePrecedence, child, buf)` given the child's pieces -/
 def goWrap (lvl : Nat) (child : Expr) (ps : List Piece) : List Piece :=
   if lvl > goPrec child then .t (opT "(") :: (ps ++ [.t (opT ")")]) else ps
+
+def isNegLong : Expr → Bool
+  | .lit (.long n) => decide (n < 0)
+  | _ => false
+
+/-- `marshalReceiverNode(thisNodePrecedence, receiver, buf)`: a negative long literal is always parenthesised -/
+def goWrapRecv (lvl : Nat) (child : Expr) (ps : List Piece) : List Piece :=
+  if isNegLong child then .t (opT "(") :: (ps ++ [.t (opT ")")]) else goWrap lvl child ps
 
 def toksP (ts : List Token) : List Piece := ts.map .t
 
@@ -94,17 +103,17 @@ def marshalExpr : Expr → List Piece
   | .var v => [.t (idT (varName v))]
   | .unop .not e => .t (opT "!") :: goWrap 6 e (marshalExpr e)
   | .unop .neg e => .t (opT "-") :: goWrap 6 e (marshalExpr e)
-  | .unop .isEmpty e => goWrap 7 e (marshalExpr e) ++ toksP [opT ".", idT "isEmpty", opT "(", opT ")"]
+  | .unop .isEmpty e => goWrapRecv 7 e (marshalExpr e) ++ toksP [opT ".", idT "isEmpty", opT "(", opT ")"]
   | .binop op l r =>
     (match goInfix op with
      | some (tok, lp, rp) => goWrap lp l (marshalExpr l) ++ .s " " :: .t tok :: .s " " :: goWrap rp r (marshalExpr r)
      | none =>
-       goWrap 7 l (marshalExpr l) ++ .t (opT ".") :: .t (idT (goMethodName op)) :: .t (opT "(") ::
+       goWrapRecv 7 l (marshalExpr l) ++ .t (opT ".") :: .t (idT (goMethodName op)) :: .t (opT "(") ::
          (goWrap 7 r (marshalExpr r) ++ [.t (opT ")")]))
   | .ite c t e =>
     .t (kwT "if") :: .s " " :: (goWrap 0 c (marshalExpr c) ++ .s " " :: .t (kwT "then") :: .s " " ::
       (goWrap 0 t (marshalExpr t) ++ .s " " :: .t (kwT "else") :: .s " " :: goWrap 0 e (marshalExpr e)))
-  | .access e a => goWrap 7 e (marshalExpr e) ++ goAccessP a
+  | .access e a => goWrapRecv 7 e (marshalExpr e) ++ goAccessP a
   | .has e a => goWrap 4 e (marshalExpr e) ++ [.s " ", .t (kwT "has"), .s " ", goAttrP a]
   | .like e p =>
     goWrap 4 e (marshalExpr e) ++ .s " " :: .t (kwT "like") :: .s " " :: (match patT p with | some t => [.t t] | none => [])
@@ -119,7 +128,7 @@ def marshalExpr : Expr → List Piece
       (match args with
        | [] => []          -- Go panics (index out of range): unmodelled
        | recv :: rest =>
-         goWrap 7 recv (marshalExpr recv) ++ .t (opT ".") :: .t (idT fn) :: .t (opT "(") :: (marshalArgs 7 rest ++ [.t (opT ")")]))
+         goWrapRecv 7 recv (marshalExpr recv) ++ .t (opT ".") :: .t (idT fn) :: .t (opT "(") :: (marshalArgs 7 rest ++ [.t (opT ")")]))
     else .t (idT fn) :: .t (opT "(") :: (marshalArgs 7 args ++ [.t (opT ")")])
 /-- children at level `lvl` separated by `", "` -/
 def marshalArgs (lvl : Nat) : List Expr → List Piece
